@@ -58,10 +58,47 @@ func ruleDeepCopy(c *Ctx, r *Report, prefix string) {
 				mispaired[fd] = fs.Name()
 			}
 		}
+		// a fresh local slice filled from src.f (copy(p, src.f) / append(nil, src.f...)) stands for src.f
+		// when it is stored into dst.f afterwards
+		localFrom := map[ssa.Value]*types.Var{}
+		for _, b := range theCtx.GB(fn) {
+			for _, ins := range b.Instrs {
+				call, isC := ins.(*ssa.Call)
+				if !isC {
+					continue
+				}
+				bi, isB := call.Call.Value.(*ssa.Builtin)
+				if !isB || len(call.Call.Args) < 2 {
+					continue
+				}
+				if fs := rootField(call.Call.Args[1], src); fs != nil {
+					switch bi.Name() {
+					case "copy":
+						if _, isMk := stripConv(call.Call.Args[0]).(*ssa.MakeSlice); isMk {
+							localFrom[stripConv(call.Call.Args[0])] = fs
+						}
+					case "append":
+						if isNilConst(stripConv(call.Call.Args[0])) {
+							localFrom[call] = fs
+						}
+					}
+				}
+			}
+		}
 		for _, b := range theCtx.GB(fn) {
 			for _, ins := range b.Instrs {
 				switch x := ins.(type) {
 				case *ssa.Store:
+					if fs, ok := localFrom[stripConv(x.Val)]; ok {
+						if fd := rootField(x.Addr, dst); fd != nil {
+							if fd == fs {
+								paired[fd] = true
+							} else {
+								mispaired[fd] = fs.Name()
+							}
+							continue
+						}
+					}
 					pair(x.Addr, x.Val)
 					if fd := rootField(x.Addr, dst); fd != nil && containsRef(x.Val.Type(), 0) && rootField(x.Val, src) != nil {
 						if _, direct := x.Addr.(*ssa.FieldAddr); direct {
